@@ -20,6 +20,9 @@ type c14Case struct {
 	// Huge: parents of more than 2^24 (2^31) samples: shape, and positions / reads / writes at a sparse
 	// set of indices (first, last, around 2^24/C, 2^31/C and 2^32/C), without the cell-by-cell model
 	Huge bool `json:"huge,omitempty"`
+	// ValPass: special sample values (both zeros, tiny and huge magnitudes, infinities, integer bounds)
+	// read and written through the view of channel Chan, compared by bit pattern
+	ValPass bool `json:"val_pass,omitempty"`
 }
 
 func c14Run(cs c14Case) []F {
@@ -96,9 +99,37 @@ func c14HugeRun(cs c14Case, root dyn.Buf) (fs []F) {
 	return
 }
 
+// c14Values: every special value of the element type is written into the parent and read through
+// the view, and written through the view and read from the parent.
+func c14Values(cs c14Case) (fs []F) {
+	t := typeByName(cs.Type)
+	sp := valSpecials(t)
+	parent := dyn.Alloc(t, al(cs.C, len(sp), len(sp)))
+	ch := parent.Channel(cs.Chan)
+	for i, v := range sp {
+		pos := cs.C*i + cs.Chan
+		parent.SetSample(pos, v)
+		if g := ch.Sample(i); g != v {
+			return append(fs, core.Failf("Channel/value", "%s C=%d channel %d: the parent's sample %d holds %v (bits %#x), the view reads %v (bits %#x) at index %d", cs.Type, cs.C, cs.Chan, pos, v, v.B, g, g.B, i))
+		}
+		w := sp[(i+1)%len(sp)]
+		ch.SetSample(i, w)
+		if g := parent.Sample(pos); g != w {
+			return append(fs, core.Failf("Channel/value", "%s C=%d channel %d: SetSample(%d, %v) through the view (bits %#x): the parent's sample %d reads %v (bits %#x)", cs.Type, cs.C, cs.Chan, i, w, w.B, pos, g, g.B))
+		}
+		if g := ch.Sample(i); g != w {
+			return append(fs, core.Failf("Channel/value", "%s C=%d channel %d: SetSample(%d, %v) then Sample(%d) through the view reads %v (bits %#x, want %#x)", cs.Type, cs.C, cs.Chan, i, w, i, g, g.B, w.B))
+		}
+	}
+	return
+}
+
 func c14RunRaw(cs c14Case) (fs []F) {
 	if cs.Huge {
 		return c14HugeRun(cs, nil)
+	}
+	if cs.ValPass {
+		return c14Values(cs)
 	}
 	t := typeByName(cs.Type)
 	fail := func(kind, format string, a ...any) {
@@ -217,6 +248,13 @@ func init() {
 				for _, C := range []int{1, 2, 3} {
 					for ch := 0; ch < C; ch++ {
 						cases = append(cases, c14Case{Type: tn(t), C: C, P: 1200, S: 50, L: 1100, Chan: ch})
+					}
+				}
+			}
+			for _, t := range valTypes() { // special values through the view, by bit pattern
+				for _, C := range []int{1, 2, 3} {
+					for ch := 0; ch < C; ch++ {
+						cases = append(cases, c14Case{Type: tn(t), C: C, Chan: ch, L: 1, ValPass: true})
 					}
 				}
 			}
